@@ -595,8 +595,11 @@ def judge(desc, W, lines):
         return _is_subseq(got.replace("…", ""), want)
 
     def _span_chars(cl, a, b_):
-        # a zero-width mark at the very start of a span is stored with the cell before it (the divider)
-        lead = cl[a - 1][1:] if 0 < a <= len(cl) and len(cl[a - 1]) > 1 else ""
+        # a zero-width mark at the very start of a span is stored with the cell before it; it counts towards this
+        # span only when that cell is a divider / border -- when spans are adjacent (no box, no padding) the cell
+        # before is the last cell of the neighbouring column and the mark belongs to the character it sits on
+        in_other_span = any(sa <= a - 1 < sb for sa, sb in spans)
+        lead = cl[a - 1][1:] if 0 < a <= len(cl) and len(cl[a - 1]) > 1 and not in_other_span else ""
         return "".join(ch for ch in lead if not ch.isspace()) + _nonws(cl, a, b_)
 
     span_text = [[_span_chars(cells[i], a, b_) for a, b_ in spans] for i in range(len(body))]
